@@ -92,7 +92,7 @@ class Gen:
         """near duplicate: change one field, the case of a letter, the qualifier, or nothing"""
         r = self.rng
         y = dict(x, f=list(x['f']))
-        k = r.randint(0, 5)
+        k = r.randint(0, 6)
         kind = x['kind']
         if k == 0 or not y['f']:
             return y
@@ -102,6 +102,16 @@ class Gen:
             else:
                 y['at'] = r.choice([a for a in ['', 'deny', 'allow'] if a != y['at']])
             return y
+        if k == 6:
+            # the same values in other fields: move (or swap) a string between two string fields
+            si = [j for j, t in enumerate(SCHEMA[kind]) if t == 's']
+            if len(si) >= 2:
+                a, b = r.sample(si, 2)
+                if r.random() < 0.5:
+                    y['f'][a], y['f'][b] = y['f'][b], y['f'][a]
+                else:
+                    y['f'][b], y['f'][a] = y['f'][a], ''
+                return y
         i = r.randrange(len(y['f']))
         t = SCHEMA[kind][i]
         if t == 's':
